@@ -7,6 +7,7 @@ import (
 	"path/filepath"
 	"sort"
 	"strings"
+	"time"
 
 	"raven/internal/db"
 	dconfig "raven/internal/delivery/config"
@@ -92,6 +93,25 @@ func init() {
 		return Obs{"ok": true}
 	})
 	register("c17_view", opC17View)
+	// c17_send_marker: write data, read until a reply line equal to "marker" has arrived
+	// (used with a trailing NOOP: "250 OK" delimits the replies of a DATA in mid-session)
+	register("c17_send_marker", func(w *World, op Op) Obs {
+		cl, ok := w.conns[op.str("conn")]
+		if !ok {
+			return Obs{"error": "no conn"}
+		}
+		_ = cl.conn.SetWriteDeadline(time.Now().Add(10 * time.Second))
+		if _, err := cl.conn.Write([]byte(op.str("data"))); err != nil {
+			b, _ := cl.readUntil(func([]byte, bool) bool { return true }, 0)
+			return Obs{"recv": b2s(b), "how": "write-error"}
+		}
+		marker := []byte(op.str("marker") + "\r\n")
+		pred := func(b []byte, eof bool) bool {
+			return bytes.HasSuffix(b, marker) && (len(b) == len(marker) || b[len(b)-len(marker)-1] == '\n')
+		}
+		b, how := cl.readUntil(pred, time.Duration(op.num("timeout_ms", 5000))*time.Millisecond)
+		return Obs{"recv": b2s(b), "how": how}
+	})
 }
 
 // c17_view: {"users":[[name,domain,enabled,storeKey]], "roles":[[email,enabled,storeKey]],
